@@ -167,9 +167,10 @@ class _Rewriter(ast.NodeTransformer):
         if self.cut_loops == "auto":
             pass
         elif k not in self.cut_loops:
-            raise ExtractionError(
-                f"{self.fname}: loop #{k} (line {node.lineno}) has neither an invariant nor a 'native' declaration in the sidecar"
-            )
+            # a loop the sidecar says nothing about runs natively: exact for concrete iterables; a symbolic proxy refuses native iteration
+            # (Unsupported -> the unit is undecided), so nothing is assumed about a loop without a contract
+            self.generic_visit(node)
+            return node
         if node.orelse:
             raise ExtractionError(f"{self.fname}: loop #{k} has an else clause (not supported)")
         key = k if self.cut_loops == "auto" else self.cut_loops[k]
@@ -391,9 +392,9 @@ class Extracted:
                     if al.name in defs and (al.asname or al.name) not in top:
                         top[al.asname or al.name] = (rel, al.name)
         # names imported from the pure helper modules of the standard library (``from collections import defaultdict``)
-        from .units import pure_stdlib
+        from .units import pure_stdlib_from_imports
 
-        pure = pure_stdlib()
+        pure = pure_stdlib_from_imports()
         for st in tree.body:
             if isinstance(st, ast.ImportFrom) and st.level == 0 and st.module in pure:
                 for al in st.names:
